@@ -1,5 +1,6 @@
 import Irismod.Props.Tie_ServiceSched
 open Irismod.Props.Tie Irismod.Gen.PureServiceSched
+#print axioms servicesched_effects_pinned
 #print axioms servicesched_guards_pinned
 #print axioms servicesched_all_translated
 #print axioms servicesched_translated_pinned
